@@ -1,5 +1,7 @@
 import BSModel.Proofs.PrettyStream
 import BSModel.Proofs.PrettyTokens
+import BSModel.Proofs.PrettyReparseNorm
+import BSModel.Props.C05
 /-! # C14 — prettify() changes only whitespace and shows the nesting
 
 Property theorems only. `decodeImpl`, `step`, `indentString`, `events`, `receiverStream`, `prettifyImpl`, `indentOf`,
@@ -652,5 +654,113 @@ theorem specials_ok_table : ∀ e ∈ BS.Gen.Pretty.stringAffixes, ∀ body, spe
   intro e he body
   have := List.all_eq_true.mp hall e he
   cases hp : e.2.1 <;> simp_all [specialsOk]
+
+/-! ## 11. the re-parse clause through the tokenizer MODEL (C05's `reparse_roundtrip_tokenized`)
+
+    Section 10 stops at a *definition* of the token cuts. Here the clause is proved with `parse` = the code-mirror of CPython's
+    tokenizer (`Model/Tokenizer.lean`, `feed(text); close()`) + `BeautifulSoupHTMLParser`'s handlers + the construction
+    machine (`adapterBuild`), on the class C05's tokenized round trip covers (`RenderWritable`, 'minimal' formatter), with
+    the pieces no longer opaque: `toPL` hands `_format_tag`/`output_ready` of C05's renderer to this file's `decodeImpl`.
+    The bridge: the pretty output of `ds` IS the plain output of `prettyTreeL u pwt l ds` (whitespace strings `unit^level`,
+    `"\n"` added around every tag / non-blank string outside whitespace-preserving elements, text stripped, blank text
+    dropped) — `pretty_output_is_plain_output`; and the parse of that tree's text differs from the parse of `ds`'s text only by
+    whitespace in character data outside whitespace-preserving elements (`eraseWsL`: every `str.isspace` character removed,
+    empty strings dropped; comments, CDATA, doctypes, PIs, element names and everything below a whitespace-preserving
+    element compared exactly). -/
+
+open BS.PrettyReparse in
+/-- **The pretty output is the plain output of the tree with the whitespace strings added**, character for character: C14's
+    loop (`decodeImpl`, levels, literal mode, `strip`, `_indent_string`) run on the pieces C05's renderer computes, at any
+    start level, equals C05's `renderL` of `prettyTreeL`; and in plain mode it is `renderL` of the tree itself. For the
+    formatters that substitute with `substitute_xml` ('minimal'), every forest without hidden elements / cdata-named
+    elements (`renderWritableL`), a whitespace indent unit. -/
+theorem pretty_output_is_plain_output (ci : BS.Render.SCls → BS.Render.ClsInfo) (hci : ∀ c, ci c = BS.Render.assumedMarkup c)
+    (f : BS.Render.Fmt) (hf : f.subst = some BS.Render.substXml) (u : PStr) (hu : ∀ c ∈ u, isSpace c = true)
+    (pwt : Option (List PStr)) (iv : PStr → Bool) (l : Int) (ds : List BS.Render.Node)
+    (h : BS.Render.renderWritableL iv f ds = true) :
+    decodeImpl u (some l) (eventsL (toPL ci f pwt none 0 ds)) = BS.Render.renderL ci f none (prettyTreeL u pwt l ds) ∧
+    decodeImpl u none (eventsL (toPL ci f pwt none 0 ds)) = BS.Render.renderL ci f none ds := by
+  constructor
+  · rw [pretty_refines_contents u l _ (distinctL_toPL ci f pwt ds none 0)]
+    exact prettyL_eq_renderL ci hci f hf u hu pwt iv ds none 0 l rfl h
+  · rw [plain_refines_contents, plainL_toPL]
+
+open BS.PrettyReparse in
+/-- **Same parse modulo whitespace at the level of the written documents**, for EVERY forest (no writability hypothesis), unit
+    of whitespace and level: the tree a parse builds from the document `prettyTreeL` describes equals the one built from the
+    forest's own document after `eraseWsL`. `preAgreeL`: an element the pretty-printer lays out is not whitespace-preserving
+    for the re-parsing builder (both read `preserve_whitespace_tags`); `CfgWs`: `ASCII_SPACES` ⊆ `str.isspace`, string
+    containers do not produce comment/CDATA/PI/declaration/doctype classes. -/
+theorem pretty_tree_same_parse (cfg : BS.Builder.Cfg) (hw : CfgWs cfg) (f : BS.Render.Fmt) (u : PStr)
+    (hu : ∀ c ∈ u, isSpace c = true) (pwt : Option (List PStr)) (l : Int) (ds : List BS.Render.Node)
+    (ha : preAgreeL cfg pwt ds = true) :
+    eraseWsL cfg (BS.Writer.normalise cfg (BS.Render.toWDocL f (prettyTreeL u pwt l ds))) =
+      eraseWsL cfg (BS.Writer.normalise cfg (BS.Render.toWDocL f ds)) :=
+  erase_normalise_pretty hw f u hu pwt l ds ha
+
+open BS.PrettyReparse in
+/-- **`prettify_reparse_tokenized`** — "pretty-printed output re-parses to the same tree as the plain output once whitespace
+    inside text is disregarded", with the parser modelled end to end. For every builder/adapter configuration (`CfgOK`, `CfgWs`,
+    `EntOK`), `ParamsOK` tokenizer parameters, the 'minimal' formatter, whitespace unit `u`, start level `l`, and every forest
+    `ds` that is `RenderWritable` together with its pretty tree (both decidable; that the second follows from the first is
+    not proved — see the note after the examples): tokenizing `decode(indent_level=l)`'s text (the loop of `Tag.decode` on the real
+    pieces) with the model of CPython's tokenizer and building the tree gives, after `eraseWsL`, the same tree as doing so
+    with `decode()`'s text — and that tree is the normal form of `ds`. Elements, nesting, special strings and everything inside
+    whitespace-preserving elements are compared exactly; character data elsewhere up to its whitespace characters. -/
+theorem prettify_reparse_tokenized (bcfg : BS.Builder.Cfg) (acfg : BS.Adapter.ACfg) (hc : BS.Builder.CfgOK bcfg)
+    (hw : CfgWs bcfg) (P : BS.Tokenizer.Params) (hP : BS.WriterText.ParamsOK P) (he : BS.WriterMin.EntOK acfg)
+    (ci : BS.Render.SCls → BS.Render.ClsInfo) (hci : ∀ c, ci c = BS.Render.assumedMarkup c) (f : BS.Render.Fmt)
+    (hf : BS.Render.IsMinimal f) (u : PStr) (hu : ∀ c ∈ u, isSpace c = true) (pwt : Option (List PStr)) (l : Int)
+    (ds : List BS.Render.Node) (h : BS.Props.C05.RenderWritable bcfg acfg f ds)
+    (h' : BS.Props.C05.RenderWritable bcfg acfg f (prettyTreeL u pwt l ds)) (ha : preAgreeL bcfg pwt ds = true) :
+    eraseWsL bcfg (BS.Adapter.adapterBuild bcfg acfg (BS.Tokenizer.callbacks (BS.Tokenizer.run P
+        (decodeImpl u (some l) (eventsL (toPL ci f pwt none 0 ds)))))).1 =
+      eraseWsL bcfg (BS.Adapter.adapterBuild bcfg acfg (BS.Tokenizer.callbacks (BS.Tokenizer.run P
+        (decodeImpl u none (eventsL (toPL ci f pwt none 0 ds)))))).1 ∧
+    eraseWsL bcfg (BS.Adapter.adapterBuild bcfg acfg (BS.Tokenizer.callbacks (BS.Tokenizer.run P
+        (decodeImpl u (some l) (eventsL (toPL ci f pwt none 0 ds)))))).1 =
+      eraseWsL bcfg (BS.Writer.normalise bcfg (BS.Render.toWDocL f ds)) := by
+  obtain ⟨e1, e2⟩ := pretty_output_is_plain_output ci hci f hf.1 u hu pwt acfg.isVoid l ds h.1
+  rw [e1, e2, BS.Props.C05.reparse_roundtrip_tokenized bcfg acfg hc P hP he ci hci f hf _ h',
+    BS.Props.C05.reparse_roundtrip_tokenized bcfg acfg hc P hP he ci hci f hf _ h]
+  exact ⟨pretty_tree_same_parse bcfg hw f u hu pwt l ds ha, pretty_tree_same_parse bcfg hw f u hu pwt l ds ha⟩
+
+/-- `pre`/`textarea` as the pretty-printer's whitespace-preserving names; C04's sample configuration preserves `pre` -/
+def tkPwt : Option (List PStr) := some [ofS "pre", ofS "textarea"]
+
+/-- doctype, attributes, text to strip, a blank string, void element, comment, nested elements, a `<pre>` with an element
+    and significant whitespace inside -/
+def tkForest : List BS.Render.Node :=
+  [.str .doctype (ofS "html"),
+   .tag (BS.Props.C05.tg "p" [(ofS "id", .str (ofS "x&y"))])
+     [.str .navigable (ofS " a<b  & c "), .tag (BS.Props.C05.tg "br" [] true) [], .str .navigable (ofS " \n"),
+      .str .comment (ofS " note "), .tag (BS.Props.C05.tg "b") [.str .navigable (ofS "x")], .tag (BS.Props.C05.tg "i") []],
+   .tag (BS.Props.C05.tg "pre") [.str .navigable (ofS " \n k "), .tag (BS.Props.C05.tg "b") [.str .navigable (ofS " y ")]]]
+
+theorem tk_cfg_ws : BS.PrettyReparse.CfgWs BS.Props.C04.xB :=
+  ⟨by decide, by intro n c h; simp only [BS.Props.C04.xB] at h; split at h <;> simp_all <;> (subst h; decide)⟩
+
+example : BS.Props.C05.RenderWritable BS.Props.C04.xB BS.Props.C05.tkA BS.Props.C05.minimalHtml tkForest := by decide +kernel
+example : BS.Props.C05.RenderWritable BS.Props.C04.xB BS.Props.C05.tkA BS.Props.C05.minimalHtml
+    (BS.PrettyReparse.prettyTreeL (ofS " ") tkPwt 0 tkForest) := by decide +kernel
+example : BS.PrettyReparse.preAgreeL BS.Props.C04.xB tkPwt tkForest = true := by decide
+example : decodeImpl (ofS " ") (some 0) (eventsL (BS.PrettyReparse.toPL BS.Gen.C05.liveClsInfo BS.Props.C05.minimalHtml tkPwt none 0 tkForest)) =
+    ofS "<!DOCTYPE html>\n<p id=\"x&amp;y\">\n a&lt;b  &amp; c\n <br/>\n <!-- note -->\n <b>\n  x\n </b>\n <i>\n </i>\n</p>\n<pre> \n k <b> y </b></pre>\n" := by
+  decide +kernel
+/-- what both parses are, after erasing -/
+example : BS.PrettyReparse.eraseWsL BS.Props.C04.xB
+      (BS.Writer.normalise BS.Props.C04.xB (BS.Render.toWDocL BS.Props.C05.minimalHtml tkForest)) =
+    [.text 5 (ofS "html"),
+     .elem (ofS "p") none [.text 0 (ofS "a<b&c"), .elem (ofS "br") none [], .text 1 (ofS " note "),
+       .elem (ofS "b") none [.text 0 (ofS "x")], .elem (ofS "i") none []],
+     .elem (ofS "pre") none [.text 0 (ofS " \n k "), .elem (ofS "b") none [.text 0 (ofS " y ")]]] := by rfl
+/-! NOT proved: `RenderWritable … ds → RenderWritable … (prettyTreeL u pwt l ds)` (the added strings are whitespace, stripping
+    removes characters only, so it holds; the proof needs `Writable` under `minimalChoices` restated path-independently).
+    Until then `h'` is a separate, decidable hypothesis — evaluated in the example above. Outside `RenderWritable` (script/style,
+    single-quoted values, other formatters, hidden elements, non-whitespace units) the clause rests on the harness stream
+    `reparse-model` (real prettify()/decode() text → real parser vs tokenizer model + builder model, erased trees compared). -/
+
+/-- `preAgreeL` is needed: were `p` whitespace-preserving for the builder only, the added whitespace would survive the erasure -/
+example : BS.PrettyReparse.preAgreeL { BS.Props.C04.xB with preserve := fun n => n == ofS "p" } tkPwt tkForest = false := by decide
 
 end BS.Props.C14
